@@ -55,6 +55,7 @@ void ns_duplicate(int i);       /* deliver a copy, original stays in flight */
 void ns_inject(const coap_address_t *src, const coap_address_t *dst, const uint8_t *data, size_t len);
 void ns_inject_now(const coap_address_t *src, const coap_address_t *dst, const uint8_t *data, size_t len);
 int ns_total_sent(void);        /* datagrams sent by libcoap sockets so far */
+extern int ns_bind_fail_next;   /* >0: the next coap_socket_bind_udp fails with EADDRINUSE (decremented) */
 extern int ns_send_fail_next;   /* >0: the next coap_socket_send returns -1/ENOBUFS (decremented) */
 
 /* hooks */
